@@ -85,6 +85,8 @@ type Explorer struct {
 	curModel map[string]uint64
 	evalMemo map[int]uint64
 	decided  map[int]bool
+	chosen   map[string]uint64
+	chooseCnt map[string]int
 
 	Res       *JobResult
 	pathIdx   int
@@ -320,6 +322,34 @@ func (ex *Explorer) Choose(n int) int {
 	return 0
 }
 
+// ChooseNamed is Choose whose result is recorded in every model of this path
+// under "<name>#<k>" (k = number of earlier choices with that name), which is
+// what the native shim's symChoose reads on replay.
+func (ex *Explorer) ChooseNamed(name string, n int) int {
+	v := ex.Choose(n)
+	if ex.chosen == nil {
+		ex.chosen = make(map[string]uint64)
+		ex.chooseCnt = make(map[string]int)
+	}
+	k := ex.chooseCnt[name]
+	ex.chooseCnt[name] = k + 1
+	ex.chosen[fmt.Sprintf("%s#%d", name, k)] = uint64(v)
+	return v
+}
+
+func (ex *Explorer) withChosen(m map[string]uint64) map[string]uint64 {
+	if len(ex.chosen) == 0 {
+		return m
+	}
+	if m == nil {
+		m = make(map[string]uint64)
+	}
+	for k, v := range ex.chosen {
+		m[k] = v
+	}
+	return m
+}
+
 func (ex *Explorer) NewVar(name string, w int) *Term {
 	t := ex.Pool.Var(name, w)
 	for _, v := range ex.inputs {
@@ -369,13 +399,13 @@ func (ex *Explorer) model() map[string]uint64 {
 		for _, v := range ex.inputs {
 			out[v.Name] = ex.curModel[v.Name]
 		}
-		return out
+		return ex.withChosen(out)
 	}
 	r, m := ex.S.Check(nil, true, ex.inputs)
 	if r != Sat {
-		return nil
+		return ex.withChosen(nil)
 	}
-	return m
+	return ex.withChosen(m)
 }
 
 func (ex *Explorer) addCex(msg string, model map[string]uint64) {
@@ -419,7 +449,7 @@ func (ex *Explorer) Assert(c value, msg string) {
 			ex.inconclusive("solver unknown on assertion: " + msg)
 			return
 		}
-		ex.addCex(msg, model)
+		ex.addCex(msg, ex.withChosen(model))
 		// continue on the part of the path where the assertion holds
 		switch ex.check(b.t) {
 		case Sat:
@@ -463,6 +493,7 @@ func (ex *Explorer) Run(res *JobResult, resetAndRun func() (outcome string)) {
 		ex.pathIdx = res.Paths
 		res.Paths++
 		ex.curModel = nil
+		ex.chosen, ex.chooseCnt = nil, nil
 		ex.decided = make(map[int]bool)
 		ex.S.Reset()
 		outcome := resetAndRun()
